@@ -278,7 +278,7 @@ func (w *World) lookupContract(g *Gen, c *ssa.CallCommon, name string) (*FuncCon
 			base = base[:i]
 		}
 		for k, fc := range pc.Externs {
-			if lastPkgElem(k) == lastPkgElem(base) {
+			if lastPkgElem(k) == lastPkgElem(base) || siteMatches(base, k) {
 				return fc
 			}
 		}
